@@ -25,6 +25,13 @@ type Allocator struct {
 	updatesC     chan interface{}
 	partitions   map[uuid.UUID]*partition
 	partitionsMu *sync.RWMutex
+
+	// Node changes waiting for the worker. Unbounded: the goroutine that applies the
+	// zero group's log sends the notifications and applies the worker's proposals,
+	// so it must never have to wait for the worker.
+	nodeChanges   []func()
+	nodeChangesMu *sync.Mutex
+	nodeChangesC  chan struct{}
 }
 
 type watchPartitionUpdate struct {
@@ -46,9 +53,13 @@ func NewAllocator(clusterConn *cluster.Conn) *Allocator {
 		updatesC:     make(chan interface{}),
 		partitions:   make(map[uuid.UUID]*partition),
 		partitionsMu: &sync.RWMutex{},
+
+		nodeChangesMu: &sync.Mutex{},
+		nodeChangesC:  make(chan struct{}, 1),
 	}
 
 	go a.run()
+	go a.runNodeChanges()
 
 	return a
 }
@@ -121,11 +132,14 @@ func (this *Allocator) run() {
 			if change == nil {
 				continue
 			}
+			// Handled by the worker. A node change makes proposals and waits until they
+			// are applied; this loop has to keep receiving meanwhile.
+			nodeId := change.NodeId
 			switch change.Type {
 			case cluster.NodesChangeAddNode:
-				this.addNodeToPartitions(change.NodeId)
+				this.enqueueNodeChange(func() { this.addNodeToPartitions(nodeId) })
 			case cluster.NodesChangeRemoveNode:
-				this.removeNodeFromPartitions(change.NodeId)
+				this.enqueueNodeChange(func() { this.removeNodeFromPartitions(nodeId) })
 			}
 		case update := <-this.updatesC:
 			if update == nil {
@@ -163,6 +177,53 @@ func (this *Allocator) run() {
 	}
 }
 
+func (this *Allocator) enqueueNodeChange(fn func()) {
+	this.nodeChangesMu.Lock()
+	this.nodeChanges = append(this.nodeChanges, fn)
+	this.nodeChangesMu.Unlock()
+
+	select {
+	case this.nodeChangesC <- struct{}{}:
+	default:
+	}
+}
+
+func (this *Allocator) runNodeChanges() {
+	for {
+		select {
+		case <-this.nodeChangesC:
+		case <-this.ctx.Done():
+			return
+		}
+
+		for {
+			this.nodeChangesMu.Lock()
+			if len(this.nodeChanges) == 0 {
+				this.nodeChangesMu.Unlock()
+				break
+			}
+			fn := this.nodeChanges[0]
+			this.nodeChanges = this.nodeChanges[1:]
+			this.nodeChangesMu.Unlock()
+
+			fn()
+		}
+	}
+}
+
+// Copy of the watched partitions. Proposals are made and waited for without the
+// lock: applying them (watch, unwatch) takes it for writing.
+func (this *Allocator) watchedPartitions() []*partition {
+	this.partitionsMu.RLock()
+	defer this.partitionsMu.RUnlock()
+
+	partitions := make([]*partition, 0, len(this.partitions))
+	for _, partition := range this.partitions {
+		partitions = append(partitions, partition)
+	}
+	return partitions
+}
+
 func (this *Allocator) isPartitionAssignedToNode(partition *partition) bool {
 	for _, nodeId := range partition.nodeIds() {
 		if this.clusterConn.Id() == nodeId {
@@ -182,10 +243,7 @@ func (this *Allocator) canModifyPartition(partition *partition) bool {
 }
 
 func (this *Allocator) addNodeToPartitions(nodeId uint64) {
-	this.partitionsMu.RLock()
-	defer this.partitionsMu.RUnlock()
-
-	for _, partition := range this.partitions {
+	for _, partition := range this.watchedPartitions() {
 		if this.canModifyPartition(partition) && partition.isUnderReplicated() {
 			partition.proposeAddNode(this.ctx, nodeId)
 		}
@@ -193,10 +251,7 @@ func (this *Allocator) addNodeToPartitions(nodeId uint64) {
 }
 
 func (this *Allocator) removeNodeFromPartitions(nodeId uint64) {
-	this.partitionsMu.RLock()
-	defer this.partitionsMu.RUnlock()
-
-	for _, partition := range this.partitions {
+	for _, partition := range this.watchedPartitions() {
 		if this.canModifyPartition(partition) {
 			partition.proposeRemoveNode(this.ctx, nodeId)
 		}
